@@ -408,8 +408,14 @@ class C07(Property):
                    'Log: Lean Float vs numpy at 1e-9 of the row scale',
                    'NumSysLinTanh.f raises TypeError on the pinned tree (min_ arity) and is not modelled')
     clauses_without_theorem = (
-        'the external row reduction itself (sympy Matrix.rref via pyneqsys.linear_rref) is not modelled: the rref theorems assume '
-        'RowEquiv between its input and output; that hypothesis, the independence of the returned rows and hence '
+        'the external row reduction itself (sympy Matrix.rref via pyneqsys.linear_rref) is not modelled. For the CONSERVATION block the '
+        'hypothesis RowEquiv is now discharged per instance inside the model (decidable preservCert, theorem '
+        'rref_preserv_zero_iff_certified; the harness only supplies the weights P, L). For the EQUILIBRIUM block (irrational ln K) the '
+        'weights are kernel-checked too (equilCertSys on the rational log-coordinate matrices, theorem rref_equil_zero_iff_certified); the '
+        'identity ln K_i = sum_k E_ik ln p_k and K_i > 0 are theorems from the decidable ksCert (rref_equil_zero_iff_certified_constants); what '
+        'remains assumed there is only that the reducer\'s symbolic right-hand side is the number rb_j = sum_k E\'_jk ln p_k (checked exactly by '
+        'the harness through prime factorisation of exp(rb), not in Lean), and for inconsistent dependent systems nothing is certified. The generic '
+        'rref_zero_iff_* theorems still take RowEquiv as hypothesis; that hypothesis, the independence of the returned rows and hence '
         '"number of equilibrium equations = rank(A | ln K)", "number of conservation equations = rank(B | B c0)" are checked per '
         'generated instance only (exact rational arithmetic, logs in coordinates over {ln p}); for dependent reactions with '
         'INCONSISTENT constants (one K violated) the reducer row (0…0|1) is an irrational multiple and only the zero/non-zero '
@@ -672,6 +678,12 @@ class C07(Property):
                     cases.append({'op': 'rref', 'form': form, 'kind': info['kind'], 'sys': spec, 'sys_kind': es_kind,
                                   'rref_equil': re_, 'rref_preserv': rp_,
                                   'y': [rj(v) for v in y], 'params': [rj(v) for v in p]})
+                    if re_ and not (info['kind'] == 'viol_q'):
+                        # the reducer hypothesis for the equilibrium block in log coordinates, checked by the MODEL (equilCertSys)
+                        cases.append({'op': 'certE', 'sys': spec, 'sys_kind': es_kind, 'params': [rj(v) for v in p]})
+                    if rp_:
+                        # the reducer hypothesis of the rref theorems for the conservation block, checked by the MODEL (preservCert)
+                        cases.append({'op': 'cert', 'sys': spec, 'sys_kind': es_kind, 'params': [rj(v) for v in p]})
             if rng.random() < 0.05:
                 y, p, info = self._planted(rng, spec, 'lin', 'eq')
                 cases.append({'op': 'lintanh', 'sys': spec, 'sys_kind': es_kind, 'y': [rj(v) for v in y], 'params': [rj(v) for v in p]})
@@ -747,11 +759,90 @@ class C07(Property):
                 'redE': redE, 'redP': redP, 'y': [fbits(fl(v)) for v in ys], 'params': [fbits(fl(v)) for v in ps],
                 'case': {k: c[k] for k in ('form', 'y', 'params', 'rref_equil', 'rref_preserv')}}
 
+    def _model_case_certE(self, c):
+        """real stoichs_constants(rref=True) output -> coordinates of ln K and ln K' over {ln p} (exact), weights P, L by exact
+        linear algebra on (A | E), (A' | E'); the model's decidable `equilCertSys` must accept them"""
+        import sympy as sp
+        es = build(c['sys'])
+        if has_other_phase(es) or es.nr == 0:
+            return None
+        ns = es.ns
+        R = lambda v: sp.Rational(F(v).numerator, F(v).denominator)
+        K = [R(unrj(v)) for v in c['params'][ns:]]
+        if any(k <= 0 for k in K):
+            return None
+        A2, K2 = es.stoichs_constants(K, True, backend=sp)
+        v1 = [log_vector(sp.log(k)) for k in K]
+        v2 = [log_vector(sp.log(k)) for k in K2]
+        if any(v is None for v in v1 + v2):
+            return None
+        primes = sorted({q_ for v in v1 + v2 for q_ in v})
+        N = net_matrix(c['sys'])
+        E = [[v.get(q_, 0) for q_ in primes] for v in v1]
+        E2 = [[v.get(q_, 0) for q_ in primes] for v in v2]
+        M = sp.Matrix([[sp.Integer(x) for x in row] + list(e) for row, e in zip(N, E)])
+        M2 = sp.Matrix([[sp.Rational(x) for x in row] + list(e) for row, e in zip(A2, E2)]) if A2 else sp.zeros(0, M.cols)
+
+        def weights(src, dst):
+            out = []
+            for i in range(dst.rows):
+                try:
+                    sol, par = src.T.gauss_jordan_solve(dst[i, :].T)
+                except Exception:
+                    return []
+                sol = sol.subs({t: 0 for t in par})
+                out.append([sol[k] for k in range(sol.rows)])
+            return out
+        q = lambda v: rj(F(int(sp.Rational(v).p), int(sp.Rational(v).q)))
+        return {'op': 'equil_cert', 'sys': encode(es), 'src': c['sys'], 'm': len(primes),
+                'P': [[q(v) for v in row] for row in weights(M, M2)], 'L': [[q(v) for v in row] for row in weights(M2, M)],
+                'E': [[q(v) for v in row] for row in E], 'A2': [[q(v) for v in row] for row in A2], 'E2': [[q(v) for v in row] for row in E2],
+                # the model also certifies K_i = prod_k p_k^E_ik (integer exponents of the rational constants): equilCertFull
+                'primes': [int(p_) for p_ in primes], 'Eint': [[int(v) for v in row] for row in E], 'ks': [q(k) for k in K]}
+
+    def _model_case_cert(self, c):
+        """run the real reducer on (B | B c0), find weights P, L by exact linear algebra, and let the model's decidable
+        `preservCert` accept them (expected answer of the model: true)"""
+        import sympy as sp
+        from pyneqsys.symbolic import linear_rref
+        es = build(c['sys'])
+        if has_other_phase(es):
+            return None
+        ns = es.ns
+        R = lambda v: sp.Rational(F(v).numerator, F(v).denominator)
+        c0 = [unrj(v) for v in c['params']][:ns]
+        B, _ = es.composition_balance_vectors()
+        if not B:
+            return None
+        b = [sum(sp.Integer(x) * R(v) for x, v in zip(row, c0)) for row in B]
+        rA, rb = linear_rref(B, b)
+        M = sp.Matrix([[sp.Integer(x) for x in row] + [t] for row, t in zip(B, b)])
+        M2 = sp.Matrix([[rA[i, j] for j in range(rA.cols)] + [rb[i]] for i in range(rA.rows)])
+
+        def weights(src, dst):
+            out = []
+            for i in range(dst.rows):
+                try:
+                    sol, par = src.T.gauss_jordan_solve(dst[i, :].T)
+                except Exception:
+                    return []
+                sol = sol.subs({t: 0 for t in par})
+                out.append([sol[k] for k in range(sol.rows)])
+            return out
+        q = lambda v: rj(F(int(sp.Rational(v).p), int(sp.Rational(v).q)))
+        return {'op': 'preserv_cert', 'sys': encode(es), 'src': c['sys'], 'init': [rj(v) for v in c0],
+                'P': [[q(v) for v in row] for row in weights(M, M2)], 'L': [[q(v) for v in row] for row in weights(M2, M)],
+                'redP': {'rA': [[q(rA[i, j]) for j in range(rA.cols)] for i in range(rA.rows)], 'rb': [q(v) for v in rb]}}
+
     def model_case(self, c):
         if c['op'] == 'rref':
             return self._model_case_rref(c)
         if c['op'] == 'solver':
             return {'op': 'solver_params', 'init': c['init'], 'rxn_params': c['Ks'], 'src': c['sys']}
+        if c['op'] == 'cert':
+            return self._model_case_cert(c)
+        if c['op'] == 'certE':
+            return self._model_case_certE(c)
         if c['op'] in ('prepost', 'q2d', 'ckeys', 'scd'):
             es = build(c['sys'])
             enc = encode(es)
@@ -813,6 +904,8 @@ class C07(Property):
         es = build(mc['src'])
         if op == 'multi':
             return self._impl_multi(es, mc)
+        if op in ('preserv_cert', 'equil_cert'):
+            return 'true'       # the real reducer's output must be certifiably row-equivalent to what chempy handed over
         if op == 'rp_f':
             import sympy as sp
             cc = dict(mc['case'])
@@ -925,7 +1018,7 @@ class C07(Property):
     def same(self, mc, io, mo):
         if mc['op'] == 'multi':
             return self._same_multi(mc, io, mo)
-        if mc['op'] == 'rp_f':
+        if mc['op'] in ('rp_f', 'preserv_cert', 'equil_cert'):
             return io == mo
         if mc['op'] == 'cfg_f':
             return self._same_cfg(mc, io, mo)
